@@ -124,6 +124,39 @@ def performs_read(F, t):
     return _READS[k]
 
 
+def reaches_read(F, g):
+    k = g["def"]
+    if k not in _READS:
+        fns = [g] + [util.local_fn(F, x) for x in util.reachable_defs(F, g, depth=5)]
+        _READS[k] = any(h is not None and any((mir.callee_decl(t2) or "").startswith("byteorder::ReadBytesExt::") or
+                                              mir.callee_decl(t2) == "std::io::Read::read_exact" for _, t2 in mir.calls(h)) for h in fns)
+    return _READS[k]
+
+
+def callbacks_read(F, helper):
+    """a higher-order helper calls back into a function it was handed: at every call site of the helper in this crate, some
+    function item / closure among the arguments reads from the source"""
+    sites = 0
+    for h in F.identity_fns():
+        if h.get("krate") != F.crate:
+            continue
+        for b, t in mir.calls(h):
+            d = mir.callee_def(t) or ""
+            if d.split("::<")[0] != helper["def"] and mir.callee_decl(t) != helper["def"]:
+                continue
+            sites += 1
+            cbs = []
+            for r in util.fn_refs({"blocks": [{"cleanup": False, "args": t.get("args", [])}]}):
+                g = util.local_fn(F, r)
+                if g is not None:
+                    cbs.append(g)
+            # closures are built into a local before the call: look at the closures of the calling function as well
+            cbs += [c for c in F.identity_fns() if c["def"].startswith(h["def"].split("::{closure")[0] + "::{closure")]
+            if not any(reaches_read(F, g) for g in cbs):
+                return False
+    return sites > 0
+
+
 def counter_and_limit(ps):
     """the position counter and its limit: the two fields of self compared on the index-less `None` path"""
     counter = limit = None
@@ -215,6 +248,10 @@ def progress(ctx, F):
                 t = fn["blocks"][b]["term"]
                 if t["k"] == "call" and performs_read(F, t):
                     read_blocks.add(b)
+                elif t["k"] == "call" and (mir.callee_decl(t) or "") in ("std::ops::FnMut::call_mut", "std::ops::Fn::call", "std::ops::FnOnce::call_once"):
+                    # a callback of a higher-order helper: it reads when it does in every instantiation of the helper
+                    if callbacks_read(F, fn):
+                        read_blocks.add(b)
             has_read = bool(read_blocks)
             # every cycle through the header passes a fallible read: without the reading blocks the header cannot reach itself
             rest = set(blocks) - read_blocks
